@@ -216,4 +216,189 @@ theorem localTypeP_ren (f t : Item) : localTypeP (renItem σ f) (renItem σ t) =
 
 end renFilter
 
+def renPair (σ : Nat → Nat) (p : Item × Item) : Item × Item := (renItem σ p.1, renItem σ p.2)
+@[simp] theorem renPair_fst (σ) (p : Item × Item) : (renPair σ p).1 = renItem σ p.1 := rfl
+@[simp] theorem renPair_snd (σ) (p : Item × Item) : (renPair σ p).2 = renItem σ p.2 := rfl
+@[simp] theorem renCrate_items (σ) (c : Crate) : (renCrate σ c).items = c.items.map (renItem σ) := rfl
+@[simp] theorem renCrate_summaries (σ) (c : Crate) :
+    (renCrate σ c).summaries = c.summaries.map fun s => { s with id := σ s.id } := rfl
+@[simp] theorem renCrate_ext (σ) (c : Crate) : (renCrate σ c).ext = c.ext := rfl
+@[simp] theorem renCrate_name (σ) (c : Crate) : (renCrate σ c).name = c.name := rfl
+
+section renCrate
+variable {σ : Nat → Nat} (hσ : Injective σ)
+include hσ
+
+theorem isVariantMember_ren (c : Crate) (v : Item) :
+    (renCrate σ c).isVariantMember (renItem σ v) = c.isVariantMember v := by
+  simp only [Crate.isVariantMember, renCrate_items, List.any_map, Function.comp_def, renItem_isEnum, hasVariant_ren σ hσ]
+
+theorem fieldP_ren (c : Crate) (x f : Item) : (renCrate σ c).fieldP (renItem σ x) (renItem σ f) = c.fieldP x f := by
+  simp only [Crate.fieldP, hasField_ren σ hσ, isStruct_ren, isVariantMember_ren hσ]
+
+theorem apps_ren (c : Crate) : (renCrate σ c).apps = c.apps.map (renPair σ) := by
+  simp only [Crate.apps, renCrate_items, List.filter_map, List.flatMap_map, List.map_flatMap, List.map_map,
+    Function.comp_def, isStruct_ren, isImplFor_ren hσ, renPair]
+
+theorem isApp_ren (c : Crate) (x : Item) : (renCrate σ c).isApp (renItem σ x) = c.isApp x := by
+  simp only [Crate.isApp, apps_ren hσ, List.any_map, Function.comp_def, renPair_snd, renItem_id, beq_inj hσ]
+
+theorem parentP_ren (c : Crate) (p ch : Item) :
+    (renCrate σ c).parentP (renItem σ p) (renItem σ ch) = c.parentP p ch := by
+  simp only [Crate.parentP, isApp_ren hσ, renCrate_items, List.any_map, Function.comp_def, localTypeP_ren hσ,
+    fieldP_ren hσ]
+
+theorem rootApps_ren (c : Crate) : (renCrate σ c).rootApps = c.rootApps.map (renPair σ) := by
+  simp only [Crate.rootApps, apps_ren hσ, List.filter_map, renCrate_items, List.any_map, Function.comp_def,
+    renPair_snd, parentP_ren hσ]
+
+theorem assocTypes_ren (c : Crate) (imp : Item) (nm : String) :
+    (renCrate σ c).assocTypes (renItem σ imp) nm = (c.assocTypes imp nm).map (renItem σ) := by
+  simp only [Crate.assocTypes, renCrate_items, List.filter_map, List.flatMap_map, List.map_flatMap, Function.comp_def,
+    hasAssoc_ren hσ, localTypeP_ren hσ]
+
+theorem sameModule_ren (c : Crate) (a b : Item) :
+    (renCrate σ c).sameModule (renItem σ a) (renItem σ b) = c.sameModule a b := by
+  simp only [Crate.sameModule, renCrate_summaries, List.any_map, Function.comp_def, renItem_id, beq_inj hσ]
+
+theorem viewModels_ren (c : Crate) : (renCrate σ c).viewModels = c.viewModels.map (renItem σ) := by
+  simp only [Crate.viewModels, rootApps_ren hσ, List.flatMap_map, List.map_flatMap, renPair_fst, assocTypes_ren hσ]
+
+theorem events_ren (c : Crate) : (renCrate σ c).events = c.events.map (renItem σ) := by
+  simp only [Crate.events, rootApps_ren hσ, List.flatMap_map, List.map_flatMap, renPair_fst, assocTypes_ren hσ]
+
+theorem effects_ren (c : Crate) : (renCrate σ c).effects = c.effects.map (renItem σ) := by
+  simp only [Crate.effects, rootApps_ren hσ, renCrate_items, List.filter_map, List.flatMap_map, List.map_flatMap,
+    Function.comp_def, renPair_snd, renItem_isEnum, sameModule_ren hσ, isImplFor_ren hσ, assocTypes_ren hσ]
+  congr 1; funext p; congr 1; funext eff
+  by_cases h : c.sameModule p.2 eff = true
+  · simp only [h, if_true, List.map_flatMap]
+  · simp [h]
+
+theorem operations_ren (c : Crate) : (renCrate σ c).operations = c.operations.map (renPair σ) := by
+  simp only [Crate.operations, renCrate_items, List.filter_map, List.flatMap_map, List.map_flatMap, List.map_map,
+    Function.comp_def, isStruct_ren, renItem_isEnum, isImplFor_ren hσ, renPair]
+
+theorem outputs_ren (c : Crate) : (renCrate σ c).outputs = c.outputs.map (renItem σ) := by
+  simp only [Crate.outputs, operations_ren hσ, List.flatMap_map, List.map_flatMap, renPair_fst, assocTypes_ren hσ]
+
+theorem roots_ren (c : Crate) : (renCrate σ c).roots = c.roots.map (renItem σ) := by
+  simp only [Crate.roots, viewModels_ren hσ, events_ren hσ, effects_ren hσ, operations_ren hσ, outputs_ren hσ,
+    List.map_append, List.map_map, Function.comp_def, renPair_snd]
+
+theorem succ_ren (c : Crate) (x : Item) : (renCrate σ c).succ (renItem σ x) = (c.succ x).map (renItem σ) := by
+  simp only [Crate.succ, renCrate_items, List.filter_map, Function.comp_def, isStruct_ren, isVariantMember_ren hσ,
+    hasField_ren σ hσ, variantP_ren hσ, localTypeP_ren hσ]
+
+theorem seenIn_ren (seen : List Item) (y : Item) :
+    Crate.seenIn (seen.map (renItem σ)) (renItem σ y) = Crate.seenIn seen y := by
+  simp only [Crate.seenIn, List.any_map, Function.comp_def, renItem_id, beq_inj hσ]
+
+theorem dedup_ren : ∀ (l seen : List Item),
+    Crate.dedup (seen.map (renItem σ)) (l.map (renItem σ)) = (Crate.dedup seen l).map (renItem σ)
+  | [], _ => rfl
+  | y :: l, seen => by
+    simp only [List.map_cons, Crate.dedup, seenIn_ren hσ]
+    split
+    · exact dedup_ren l seen
+    · have := dedup_ren l (y :: seen)
+      simp only [List.map_cons] at this
+      simp only [List.map_cons, this]
+
+theorem reach_ren (c : Crate) : ∀ (fuel : Nat) (frontier seen : List Item),
+    (renCrate σ c).reach fuel (frontier.map (renItem σ)) (seen.map (renItem σ)) = (c.reach fuel frontier seen).map (renItem σ)
+  | 0, _, _ => rfl
+  | fuel + 1, frontier, seen => by
+    simp only [Crate.reach]
+    have hnew : Crate.dedup (seen.map (renItem σ)) ((frontier.map (renItem σ)).flatMap (renCrate σ c).succ)
+        = (Crate.dedup seen (frontier.flatMap c.succ)).map (renItem σ) := by
+      rw [← dedup_ren hσ]
+      simp only [List.flatMap_map, List.map_flatMap, succ_ren hσ]
+    rw [hnew, List.isEmpty_map]
+    split
+    · rfl
+    · rw [← List.map_append, reach_ren c fuel]
+
+theorem reachable_ren (c : Crate) : (renCrate σ c).reachable = c.reachable.map (renItem σ) := by
+  simp only [Crate.reachable, roots_ren hσ, renCrate_items, List.length_map]
+  have := dedup_ren hσ c.roots []
+  simp only [List.map_nil] at this
+  rw [this, reach_ren hσ]
+
+theorem edges_ren (c : Crate) : (renCrate σ c).edges = c.edges.map (renPair σ) := by
+  simp only [Crate.edges, roots_ren hσ, reachable_ren hσ, List.filter_map, List.map_append, List.map_map,
+    List.flatMap_map, List.map_flatMap, Function.comp_def, isStructUnit_ren, succ_ren hσ, renPair]
+
+theorem wanted_ren (c : Crate) : (renCrate σ c).wanted = c.wanted := by
+  simp only [Crate.wanted, edges_ren hσ, renCrate_summaries, renCrate_ext, List.flatMap_map, List.filter_map,
+    Function.comp_def, renPair_snd, isOfType_ren hσ]
+
+end renCrate
+
+/-- every crate renumbered by its own map -/
+def renCrates (σ : String → Nat → Nat) (cs : List Crate) : List Crate := cs.map fun c => renCrate (σ c.name) c
+
+section renAll
+variable (σ : String → Nat → Nat) (hσ : ∀ c, Injective (σ c))
+include hσ
+
+theorem nodeEdges_ren (c : Crate) : nodeEdges (renCrate (σ c.name) c) = renEdges σ (nodeEdges c) := by
+  simp only [nodeEdges, renEdges, edges_ren (hσ c.name), List.map_map, Function.comp_def, renCrate_name, renPair_fst,
+    renPair_snd, renNode]
+
+theorem wantedAll_ren (loaded : List Crate) :
+    (renCrates σ loaded).flatMap Crate.wanted = loaded.flatMap Crate.wanted := by
+  simp only [renCrates, List.flatMap_map, wanted_ren (hσ _)]
+
+omit hσ in
+theorem anyName_ren (loaded : List Crate) (n : String) :
+    ((renCrates σ loaded).any fun l => l.name == n) = loaded.any fun l => l.name == n := by
+  simp only [renCrates, List.any_map, Function.comp_def, renCrate_name]
+
+omit hσ in
+theorem findName_ren (avail : List Crate) (n : String) :
+    (renCrates σ avail).find? (fun a => a.name == n) = (avail.find? fun a => a.name == n).map fun c => renCrate (σ c.name) c := by
+  simp only [renCrates, List.find?_map, Function.comp_def, renCrate_name]
+
+theorem load_ren (avail : List Crate) : ∀ (fuel : Nat) (loaded : List Crate),
+    load (renCrates σ avail) fuel (renCrates σ loaded) = (load avail fuel loaded).map (renCrates σ)
+  | 0, _ => rfl
+  | fuel + 1, loaded => by
+    simp only [load, wantedAll_ren σ hσ, anyName_ren σ]
+    split
+    · rfl
+    · rename_i n rest _
+      rw [findName_ren σ]
+      cases hf : avail.find? fun a => a.name == n with
+      | none => rfl
+      | some a =>
+        simp only [Option.map_some]
+        have : renCrates σ loaded ++ [renCrate (σ a.name) a] = renCrates σ (loaded ++ [a]) := by
+          simp [renCrates]
+        rw [this, load_ren avail fuel]
+
+theorem loadedEdges_ren (avail : List Crate) (root : String) :
+    loadedEdges (renCrates σ avail) root = (loadedEdges avail root).map (renEdges σ) := by
+  simp only [loadedEdges, findName_ren σ]
+  cases hf : avail.find? fun a => a.name == root with
+  | none => rfl
+  | some r =>
+    simp only [Option.map_some]
+    have h1 : [renCrate (σ r.name) r] = renCrates σ [r] := by simp [renCrates]
+    have h2 : (renCrates σ avail).length = avail.length := by simp [renCrates]
+    rw [h1, h2, load_ren σ hσ]
+    cases load avail (avail.length + 1) [r] with
+    | none => rfl
+    | some L =>
+      simp only [Option.map_some, renCrates, List.flatMap_map, nodeEdges_ren σ hσ]
+      simp only [renEdges, List.map_flatMap]
+
+theorem registry_ren (avail : List Crate) (root : String) : registry (renCrates σ avail) root = registry avail root := by
+  simp only [registry, loadedEdges_ren σ hσ]
+  cases loadedEdges avail root with
+  | none => rfl
+  | some E => simp only [Option.map_some, panics_ren σ hσ, containers_ren σ hσ]
+
+end renAll
+
 end Lemmas.Codegen
